@@ -30,6 +30,11 @@ var selectors = []*selgen.Sel{
 	{Op: 'R', LimitNone: true, Subs: []*selgen.Sel{{Op: 'a', Subs: []*selgen.Sel{edge}}}},
 	{Op: 'a', Subs: []*selgen.Sel{{Op: 'a', Subs: []*selgen.Sel{matcher}}}},
 	{Op: 'R', Depth: 2, Subs: []*selgen.Sel{{Op: '|', Subs: []*selgen.Sel{matcher, {Op: 'a', Subs: []*selgen.Sel{edge}}}}}},
+	// clauses with explicit interests (index, field, range) on the way to links
+	{Op: 'i', Index: 0, Subs: []*selgen.Sel{{Op: '|', Subs: []*selgen.Sel{matcher, {Op: 'a', Subs: []*selgen.Sel{matcher}}}}}},
+	{Op: 'f', Fields: []string{"a", "c"}, Subs: []*selgen.Sel{{Op: '|', Subs: []*selgen.Sel{matcher, {Op: 'a', Subs: []*selgen.Sel{matcher}}}}, {Op: 'a', Subs: []*selgen.Sel{matcher}}}},
+	{Op: 'R', LimitNone: true, Subs: []*selgen.Sel{{Op: '|', Subs: []*selgen.Sel{matcher, {Op: '|', Subs: []*selgen.Sel{{Op: 'r', Start: 0, End: 2, Subs: []*selgen.Sel{edge}}, {Op: 'f', Fields: []string{"a"}, Subs: []*selgen.Sel{edge}}}}}}}},
+	{Op: 'a', Subs: []*selgen.Sel{{Op: 'r', Start: 0, End: 3, Subs: []*selgen.Sel{matcher}}}},
 }
 
 func compile(s *selgen.Sel) selector.Selector {
